@@ -340,6 +340,8 @@ def rpe_cli(run, case, rng, work):
         unit = ["mm", "cm", "m", "km", "deg", "rad"][rng.integers(6)]
         argv += ["--change_unit", unit]
     argv += ["--save_results", "out.zip", "--no_warnings"]
+    if rng.random() < .2:
+        argv = C01.move_to_config(rng, argv, work, 3)
     dict.__setitem__(settings.SETTINGS, "save_traj_in_zip", True)
     try:
         with PairRecorder() as prec, ProcessDataRecorder() as drec:
